@@ -1,12 +1,12 @@
 \* The repaired design (escape-aware split, \' honoured, char16 unescaped):
-\* every string of <= 5 symbols over the 10-class alphabet in 8 folding contexts.
+\* every string of <= 5 symbols over the 10-class alphabet in 4 folding contexts.
 SPECIFICATION Spec
 CONSTANTS
   MaxLen = 5
   Maxlines = {12}
   Indents = {3}
   LinePos = {0, 8}
-  EndSpaces = {0, 3}
+  EndSpaces = {3}
   Avoids = {FALSE, TRUE}
   Safe = TRUE
   AposKeep = TRUE
